@@ -78,13 +78,18 @@ fn res_plain_bytes(o: &mut String, r: Option<Vec<u8>>) {
 // ---------------------------------------------------------------------------------------------
 // Codecs
 
-fn chain<T: Form>(
+fn chain<T: Form + Clone + PartialEq + 'static>(
     b: &[u8],
     o: &mut String,
     dec: fn(&[u8]) -> Result<T, CoseError>,
     enc: fn(T) -> Result<Vec<u8>, CoseError>,
 ) {
     let Some(x1) = res_form(o, guard(|| dec(b))) else { return };
+    if !copies_agree(&x1) {
+        o.clear();
+        o.push_str("bad-clone");
+        return;
+    }
     o.push(' ');
     let Some(b1) = res_bytes(o, guard(move || enc(x1))) else { return };
     o.push(' ');
